@@ -151,7 +151,7 @@ fn run_thread(th: u64, seed: u64, nops: usize, faults: bool) -> (Vec<Value>, Vec
             }
             i.t = 0;
             ev.push(json!({"op": "reset", "i": i.id}));
-        } else if roll < 89 && live.len() < 8 {
+        } else if roll < 88 && live.len() < 8 {
             let id = next_id;
             next_id += 1;
             let cl = match catch_unwind(AssertUnwindSafe(|| live[k].ind.clone())) {
@@ -166,6 +166,22 @@ fn run_thread(th: u64, seed: u64, nops: usize, faults: bool) -> (Vec<Value>, Vec
             cfgs.push((id, c.cfg.clone()));
             ev.push(json!({"op": "clone", "i": live[k].id, "j": id}));
             live.push(c);
+        } else if roll == 89 && live.len() >= 2 {
+            // clone_from into an existing instance of the same kind
+            let kk = r.below(live.len() as u64) as usize;
+            if kk != k && live[kk].kind == live[k].kind {
+                let (src_id, src_ind, src_t, src_m, src_cfg) = (live[k].id, live[k].ind.clone(), live[k].t, live[k].mtext, live[k].cfg.clone());
+                let ok = catch_unwind(AssertUnwindSafe(|| live[kk].ind.clone_from_ind(&src_ind))).unwrap_or(false);
+                if ok {
+                    live[kk].t = src_t;
+                    live[kk].mtext = src_m;
+                    live[kk].cfg = src_cfg;
+                    ev.push(json!({"op": "cloneinto", "i": src_id, "j": live[kk].id}));
+                } else {
+                    ev.push(json!({"op": "panic", "i": live[kk].id, "during": "clone_from"}));
+                    live.remove(kk);
+                }
+            }
         } else if roll < 92 {
             let saved = match catch_unwind(AssertUnwindSafe(|| live[k].ind.save())) {
                 Ok(r) => r,
